@@ -12,7 +12,9 @@
  * stdin : one scenario per line
  *           scn <seed> <pert 0..3> <batch> <batch> ...
  *           batch = <t 1..4><W|N><n|0|S|T><0|1>:<hex digits, one host index per item>[+<n|0|T><hex digits>]
- *                   (thread, GAI_WAIT/GAI_NOWAIT, sevp NULL / SIGEV_NONE / SIGNAL / THREAD,
+ *                   (thread, GAI_WAIT/GAI_NOWAIT, sevp NULL / SIGEV_NONE / SIGNAL / THREAD;
+ *                    B = SIGEV_SIGNAL consumed synchronously: the signal is BLOCKED in the
+ *                    submitting thread and collected with sigtimedwait,
  *                    wait for completion before the thread's next call;
  *                    "+…" (GAI_NOWAIT + SIGEV_THREAD only): the callback itself submits a
  *                    follow-up GAI_NOWAIT batch — chained look-ups, the thread running the
@@ -150,7 +152,7 @@ static struct Batch *bid_batch(int bid)
 
 /* ------------------------------------------------------------------ event log (lock-free) */
 enum { E_BEGIN, E_LOCK, E_UNLOCK, E_CREATE, E_MALLOC, E_SIGNAL, E_RET, E_GACALL, E_GARET, E_NOTIFY,
-       E_KILL, E_SIGRECV, E_FREE, E_CWAIT, E_CWRET, E_POLL, E_FINAL, E_TIMEOUT, E_NOTE };
+       E_KILL, E_SIGRECV, E_FREE, E_CWAIT, E_CWRET, E_POLL, E_FINAL, E_TIMEOUT, E_NOTE, E_MASK };
 struct Ev { int ready; int kind, who, a, b, c, d; char snap[MAXN + 2]; };
 #define MAXEV 20000
 static struct Ev evs[MAXEV];
@@ -420,7 +422,9 @@ static void on_signal(int signo, siginfo_t *si, void *uc)
 	int slot = signo - SIGRTMIN;
 	struct Batch *b = (my_idx > 0 && slot >= 0 && slot < 16) ? bid_batch(sig_bid[my_idx][slot]) : NULL;
 	in_cb++;
-	if (b) {
+	if (b && b->sev == 'B')
+		logev(E_NOTE, 4, b->bid, slot, 0);     /* a blocked signal was delivered asynchronously */
+	else if (b) {
 		logsnap(E_SIGRECV, b, slot, 0);
 		sem_post(&b->sem);
 	} else
@@ -454,7 +458,7 @@ static void prep(struct Batch *b)
 		b->list[k] = &b->cb[k];
 	}
 	memset(&b->sevs, 0, sizeof b->sevs);
-	if (b->sev == 'S') {
+	if (b->sev == 'S' || b->sev == 'B') {
 		b->sevs.sigev_notify = SIGEV_SIGNAL;
 		b->sevs.sigev_signo = b->signo;
 	} else if (b->sev == 'T') {
@@ -490,11 +494,20 @@ static void submit(struct Batch *b)
 {
 	struct Ev *e;
 	struct sigevent *sv = &scratch_sev[b->t];
-	int rc, k;
+	sigset_t m0, m1;
+	int rc, k, same = 1;
 	prep(b);
 	*sv = b->sevs;
-	if (b->sev == 'S')
+	if (b->sev == 'S' || b->sev == 'B')
 		sig_bid[b->t][b->signo - SIGRTMIN] = b->bid;
+	if (b->sev == 'B') {
+		/* synchronous consumer: the notification signal stays blocked in this thread */
+		sigset_t one;
+		sigemptyset(&one);
+		sigaddset(&one, b->signo);
+		pthread_sigmask(SIG_BLOCK, &one, NULL);
+	}
+	pthread_sigmask(SIG_SETMASK, NULL, &m0);
 	e = claim();
 	e->kind = E_BEGIN; e->who = my_idx; e->a = b->bid; e->b = b->n; e->c = b->mode; e->d = b->sev;
 	for (k = 0; k < b->n; k++) e->snap[k] = "0123456789abcdef"[b->host[k]];
@@ -503,6 +516,11 @@ static void submit(struct Batch *b)
 	in_gaia = 2 + b->bid;
 	rc = getaddrinfo_a(b->mode == 'W' ? GAI_WAIT : GAI_NOWAIT, b->list, b->n, b->sev == 'n' ? NULL : sv);
 	in_gaia = 0;
+	/* frame condition: getaddrinfo_a must leave the caller's signal mask as it found it */
+	pthread_sigmask(SIG_SETMASK, NULL, &m1);
+	for (k = 1; k < SIGRTMAX; k++)
+		if (sigismember(&m0, k) != sigismember(&m1, k)) same = 0;
+	logev(E_MASK, b->bid, same, sigismember(&m0, SIGUSR2) + sigismember(&m0, SIGRTMIN + 14), 0);
 	scribble(sv, b->bid);
 	logsnap(E_RET, b, rc, 0);
 }
@@ -541,6 +559,24 @@ static void await(struct Batch *b)
 		return;
 	}
 #endif
+	if (b->sev == 'B') {
+		/* blocked + sigtimedwait: the completion must arrive here, exactly once */
+		sigset_t one;
+		sigemptyset(&one);
+		sigaddset(&one, b->signo);
+		while (!timed_out) {
+			siginfo_t si;
+			struct timespec ts = { 0, 20 * 1000 * 1000 };
+			int r = sigtimedwait(&one, &si, &ts);
+			if (r == b->signo) {
+				logsnap(E_SIGRECV, b, b->signo - SIGRTMIN, 0);
+				b->done_seen = 1;
+				return;
+			}
+			if (now_s() > deadline) { ST(timed_out_, 1); return; }
+		}
+		return;
+	}
 	if (b->sev == 'T' || b->sev == 'S') {
 		if (sem_wait_deadline(&b->sem)) b->done_seen = 1;
 		return;
@@ -584,6 +620,14 @@ static void *submitter(void *arg)
 	int t = (int)(intptr_t)arg, q;
 	my_idx = t;
 	prng = scn_seed * 1000003ULL + t * 7919;
+	{
+		/* a non-trivial signal mask that every call has to leave untouched */
+		sigset_t base;
+		sigemptyset(&base);
+		sigaddset(&base, SIGUSR2);
+		sigaddset(&base, SIGRTMIN + 14);
+		pthread_sigmask(SIG_BLOCK, &base, NULL);
+	}
 	pthread_barrier_wait(&start_bar);   /* thr[] is complete; all submitters start together */
 	for (q = 0; q < nbatch[t] && !timed_out; q++) {
 		struct Batch *b = &batches[t][q];
@@ -603,6 +647,18 @@ static void *submitter(void *arg)
 #ifndef C20_TSAN
 		if (b->done_seen) finals(b);
 #endif
+	}
+	/* blocked + sigtimedwait batches: no second instance of the signal may be pending */
+	for (q = 0; q < nbatch[t] && !timed_out; q++) {
+		struct Batch *b = &batches[t][q];
+		sigset_t one;
+		siginfo_t si;
+		struct timespec ts = { 0, 0 };
+		if (b->sev != 'B' || !b->done_seen) continue;
+		sigemptyset(&one);
+		sigaddset(&one, b->signo);
+		if (sigtimedwait(&one, &si, &ts) == b->signo)
+			logsnap(E_SIGRECV, b, b->signo - SIGRTMIN, 0);
 	}
 	/* follow-up batches submitted by the callbacks of this thread's batches */
 	for (q = 0; q < nbatch[t] && !timed_out; q++) {
@@ -664,7 +720,7 @@ static int parse_scn(char *line)
 		if (t < 1 || t > NSUB) return 0;
 		if (nbatch[t] >= MAXSEQ) return 0;
 		if (s[1] != 'W' && s[1] != 'N') return 0;
-		if (!strchr("n0ST", s[2])) return 0;
+		if (!strchr("n0STB", s[2])) return 0;
 		if (s[3] != '0' && s[3] != '1') return 0;
 		if (L - 5 > MAXN) return 0;
 		b = &batches[t][nbatch[t]];
@@ -758,6 +814,7 @@ NOTSAN static void print_trace(void)
 		case E_POLL: printf("poll %s %d %s\n", w, e->a, e->snap); break;
 		case E_FINAL: printf("final %s %d %d %d %d\n", w, e->a, e->b, e->c, e->d); break;
 		case E_TIMEOUT: printf("timeout %d %d\n", e->a, e->b); break;
+		case E_MASK: printf("mask %s %d %d %d\n", w, e->a, e->b, e->c); break;
 		default: printf("note %s %d %d %d\n", w, e->a, e->b, e->c); break;
 		}
 	}
@@ -798,7 +855,7 @@ static void run_child(void)
 	sigemptyset(&sa.sa_mask);
 	for (i = 1; i <= WRONG_SLOT; i++) sigaction(SIGRTMIN + i, &sa, NULL);
 
-	deadline = now_s() + 4.0;
+	deadline = now_s() + 6.0;
 	pthread_barrier_init(&start_bar, NULL, nthreads + 1);
 	for (t = 1; t <= nthreads; t++) {
 		__real_pthread_create(&th[t], NULL, submitter, (void *)(intptr_t)t);
@@ -809,7 +866,7 @@ static void run_child(void)
 		/* join with one common deadline: a hung submitter must not hang the harness */
 		struct timespec ts;
 		clock_gettime(CLOCK_REALTIME, &ts);
-		ts.tv_sec += 6;
+		ts.tv_sec += 9;
 		for (t = 1; t <= nthreads; t++)
 			if (pthread_timedjoin_np(th[t], NULL, &ts) != 0) ST(timed_out_, 1);
 	}
@@ -859,12 +916,12 @@ int main(void)
 			_exit(0);
 		}
 		/* hard limit for a hung or spinning child */
-		for (waited = 0; waited < 1500; waited++) {
+		for (waited = 0; waited < 2500; waited++) {
 			pid_t r = waitpid(pid, &st, WNOHANG);
 			if (r == pid) break;
 			usleep(10000);
 		}
-		if (waited >= 1500) {
+		if (waited >= 2500) {
 			kill(pid, SIGKILL);
 			waitpid(pid, &st, 0);
 			printf("crash hard-timeout\n");
